@@ -503,7 +503,6 @@ theorem nosync_complete {s₀ s : FS} {pr : Probe} {dest tmp : Path} {fd : Nat}
       simp only [hsC, if_true] at h
       simp only [List.nil_append] at hcache hdirty hfd
       simp only [runAbort, step, hfd] at h
-      have hn' : upd sC.fds fd none = upd sC.fds fd none := rfl
       simp only [hn, hne, if_false] at h
       cases h
       refine ⟨i, ?_, hcache, hdirty⟩
